@@ -113,11 +113,15 @@ package writeback
 //@ fn (*State).indexHasInflightBottomTransaction
 //@   requires s != nil
 //@   assigns nothing
+//@   loop 0: invariant -1 <= rangeindex && rangeindex < len(s.InflightEvictionIndices)
+//@   loop 1: invariant -1 <= rangeindex && rangeindex < len(s.PendingEvictionIndices)
+//@   loop 2: invariant -1 <= rangeindex && rangeindex < len(s.InflightFetchIndices)
 
 // allocTransaction stores t in a slot that holds no live transaction (a Removed one, or a new last one) and returns
 // its index; every other slot keeps its transaction.
 //@ pred c17TxIs(s, k, t) = txs(s)[k].HasFlush == t.HasFlush && txs(s)[k].HasVictim == t.HasVictim && txs(s)[k].VictimPID == t.VictimPID && txs(s)[k].VictimTag == t.VictimTag && txs(s)[k].VictimCacheAddress == t.VictimCacheAddress && txs(s)[k].Action == t.Action && txs(s)[k].EvictingPID == t.EvictingPID && txs(s)[k].EvictingAddr == t.EvictingAddr && ref(txs(s)[k].EvictingDirtyMask) == ref(t.EvictingDirtyMask) && off(txs(s)[k].EvictingDirtyMask) == off(t.EvictingDirtyMask) && len(txs(s)[k].EvictingDirtyMask) == len(t.EvictingDirtyMask) && txs(s)[k].BlockSetID == t.BlockSetID && txs(s)[k].BlockWayID == t.BlockWayID && txs(s)[k].HasBlock == t.HasBlock && txs(s)[k].Removed == t.Removed
 //@ pred c17TxKept(s, k) = txs(s)[k].Removed == old(txs(s)[k].Removed) && txs(s)[k].Action == old(txs(s)[k].Action) && txs(s)[k].HasFlush == old(txs(s)[k].HasFlush) && txs(s)[k].EvictingAddr == old(txs(s)[k].EvictingAddr) && txs(s)[k].EvictingPID == old(txs(s)[k].EvictingPID) && txs(s)[k].BlockSetID == old(txs(s)[k].BlockSetID) && txs(s)[k].BlockWayID == old(txs(s)[k].BlockWayID)
+//@ pred c17FTxKept(f, k) = txs(f.pipeline.comp.State)[k].Removed == old(txs(f.pipeline.comp.State)[k].Removed) && txs(f.pipeline.comp.State)[k].Action == old(txs(f.pipeline.comp.State)[k].Action) && txs(f.pipeline.comp.State)[k].HasFlush == old(txs(f.pipeline.comp.State)[k].HasFlush) && txs(f.pipeline.comp.State)[k].EvictingAddr == old(txs(f.pipeline.comp.State)[k].EvictingAddr) && txs(f.pipeline.comp.State)[k].EvictingPID == old(txs(f.pipeline.comp.State)[k].EvictingPID) && txs(f.pipeline.comp.State)[k].BlockSetID == old(txs(f.pipeline.comp.State)[k].BlockSetID) && txs(f.pipeline.comp.State)[k].BlockWayID == old(txs(f.pipeline.comp.State)[k].BlockWayID)
 //@ fn (*State).allocTransaction
 //@   property C17
 //@   requires s != nil
@@ -153,7 +157,7 @@ package writeback
 //@   label C17.flush.transaction
 //@   ensures result ==> 0 <= tix && tix < len(txs(f.pipeline.comp.State)) && len(txs(f.pipeline.comp.State)) <= old(len(txs(f.pipeline.comp.State))) + 1 && c17Evicts(f, tix, old(evl(f)[0].SetID), old(evl(f)[0].WayID))
 //@   label C17.flush.others
-//@   ensures result ==> (forall k in 0..old(len(txs(f.pipeline.comp.State))) :: k != tix ==> c17TxKept(f.pipeline.comp.State, k))
+//@   ensures result ==> (forall k in 0..old(len(txs(f.pipeline.comp.State))) :: k != tix ==> c17FTxKept(f, k))
 //@   label C17.flush.queued
 //@   ensures result ==> len(bufs(f)[old(c17Bank(f))].elements) == old(len(bufs(f)[c17Bank(f)].elements)) + 1 && bufs(f)[old(c17Bank(f))].elements[old(len(bufs(f)[c17Bank(f)].elements))] == tix
 //@   assigns f.pipeline.comp.State.FlusherBlockToEvictRefs, f.pipeline.comp.State.Transactions, elems(f.pipeline.comp.State.Transactions), elems(f.pipeline.comp.State.DirToBankBufs), key("E|int|")
